@@ -34,6 +34,8 @@ Features(s, b) ==     \* b: bare cell (nx, ny, m)
   UNION { { <<"cut", X(p[1], t, p[2], ct)>> : t \in Few(NT(s, b, p[1])), ct \in Few(NT(s, b, p[2])) } : p \in AdjIn(s, b, FALSE) } \cup
   UNION { { <<"assign", A("n1", p[1], t, p[2], ct)>> : t \in Few(NT(s, b, p[1])), ct \in Few(NT(s, b, p[2])) } : p \in AdjIn(s, b, TRUE) } \cup
   UNION { { <<"cut2", X(p[1], 0, p[2], 0), X(p[1], 0, p[2], ct)>> : ct \in Few(NT(s, b, p[2])) \ {0} } : p \in AdjIn(s, b, FALSE) } \cup
+  \* one track of a middle layer cut at crossings with the layer below AND the layer above that carry the same track index
+  { <<"cut2", X(l, t, l - 1, k), X(l, t, l + 1, k)>> : l \in { m \in 1..(b.metals - 2) : m + 1 < Len(s.metals) }, t \in {0, 1}, k \in {1, 2} } \cup
   { <<"sep", A("n1", p[1], 0, p[2], 0), X(p[1], 0, p[2], 1), A("n2", p[1], 0, p[2], 2)>> : p \in { q \in AdjIn(s, b, TRUE) : NT(s, b, q[2]) >= 3 } } \cup
   { <<"inst", In(1, 1, m, x, y, r[1], r[2])>> : m \in {1, Len(s.metals)}, x \in {0, 1}, y \in {0, 1, 2}, r \in BOOLEAN \X BOOLEAN }
 Apply(b, f) == CASE f = <<>> -> b
